@@ -5,6 +5,7 @@ package main
 import (
 	"bytes"
 	"encoding/hex"
+	"flag"
 	"fmt"
 	"io"
 	"math/big"
@@ -15,6 +16,7 @@ import (
 	"time"
 
 	"com.tuntun.rangers/node/src/storage/rlp"
+	"verif/harness/c08ext"
 	"verif/harness/hx"
 )
 
@@ -293,7 +295,20 @@ func main() {
 		childMain(k)
 		return
 	}
+	genOut := flag.String("gen", "", "write the generated descriptor table (coq/C08/Gen.v) to this file and exit")
 	a := hx.ParseArgs()
+	if *genOut != "" {
+		r, err := c08ext.Scan(repoRoot())
+		if err != nil {
+			fmt.Fprintln(os.Stderr, "c08ext:", err)
+			os.Exit(1)
+		}
+		if err := os.WriteFile(*genOut, []byte(c08ext.GenV(r)), 0644); err != nil {
+			fmt.Fprintln(os.Stderr, err)
+			os.Exit(1)
+		}
+		return
+	}
 	rng := hx.NewRng(a.Seed)
 	res := hx.NewResult("inputs: (1) implementation encodings of random item trees (depth<=4, string lengths straddling 1/55/56/255/256/65535), " +
 		"(2) every header byte of those mutated, (3) random bytes, (4) hostile declared sizes, (5) boundary corpus; thorough adds the exhaustive small space. " +
